@@ -643,6 +643,18 @@ def check_case(fmt, cfg, acs, printed, res, shape=None, cs=None, writer=None, hi
                 for n, (kind, nl) in zip(src, nodes):
                     if n[0] in ("style", "ustyle") and n[1] and truthy(nl):
                         exp_elems.append(("span", nl, li, ci, "node"))
+        if inline:
+            # wave 7: the layouts written inline, element by element, as the Coq definition the theorem
+            # C13_dfxp_inline_attributes_percent is about computes them (spec/SpecPos7.v inline_layouts, request 1320)
+            il = r_result(oracle_batch([(1320, [wcfg, posgen.w_nset(pacs)])])[0])
+            mine = [e[1] if truthy_plain(e[1]) else None for e in exp_elems]
+            theirs = None if isinstance(il, Err) else \
+                [(lambda l: l if truthy_plain(l) else None)(geom.r_o(x, geom.r_layout)) for x in il.v]
+            info["inline_element_layouts_compared_with_the_model(request 1320)"] = \
+                info.get("inline_element_layouts_compared_with_the_model(request 1320)", 0) + len(mine)
+            if mine != theirs:
+                res["disagreements"].append(dict(base, stream="writer-inline-choice", impl=repr(mine)[:300], model=repr(theirs)[:300]))
+                return "dis"
         got = [el for el in elems if el[0] != "span" or el[1] is not None or el[2]]
         if [(e[0], e[2], e[3]) for e in exp_elems] != [(e[0], e[3], e[4]) for e in got]:
             res["violations"].append(dict(base, kind="dfxp-elements", impl_obs=repr([(e[0], e[1]) for e in got])[:400],
